@@ -1,4 +1,5 @@
 import NrDaemon.Model.Redact
+import NrDaemon.Gen.LogSites
 /-!
   C14 — credentials never reach the logs (the parts a model can carry: the two sanitisers, as non-interference
   statements: what is logged does not depend on the secret).
@@ -165,3 +166,63 @@ theorem C14_argv_echo (pre post : List Arg) (hidle : stateAfter .idle pre = .idl
 
 /-- non-vacuity: the idle-state hypothesis holds for ordinary prefixes -/
 example : stateAfter .idle [['-', 'f'], ['-', '-', 'l', 'o', 'g', 'f', 'i', 'l', 'e'], ['/', 'x']] = .idle := by decide
+
+/-! ## The inventory of credential-capable log sinks (regenerated: `Gen.LogSites`) -/
+
+/-- the log calls of collector/, cmd/daemon and newrelic/ that receive an error, a license key, a URL, a proxy setting or a
+struct with a `Proxy` / `License` field — as they were when the scans of this property were last reviewed -/
+def reviewedLogSites : List String := [
+  "cmd/daemon/main.go:run:Errorf:\"could not create pid file: %v\":err=err",
+  "cmd/daemon/main.go:run:Errorf:\"could not write pid to file: %v\":err=err",
+  "cmd/daemon/progenitor.go:runProgenitor:Errorf:\"unable to create watcher process: %v\":err=err",
+  "cmd/daemon/progenitor.go:runProgenitor:Warnf:\"error isolating process group: %v\":err=err",
+  "cmd/daemon/watcher.go:runWatcher:Errorf:\"unable to create worker: %v\":err=err",
+  "cmd/daemon/worker.go:listenAndServe:Debugf:\"error sending signal to the progenitor process that the worker is ready: %v\":err=err",
+  "cmd/daemon/worker.go:raiseFileLimit:Warnf:\"unable to increase file limit: %v\":err=err",
+  "cmd/daemon/worker.go:raiseFileLimit:Warnf:?:err=err",
+  "cmd/daemon/worker.go:raiseFileLimit:Warnf:?:err=err",
+  "cmd/daemon/worker.go:runWorker:Debugf:\"pprof server error: %v\":err=err",
+  "cmd/daemon/worker.go:runWorker:Errorf:\"%v\":err=err",
+  "cmd/daemon/worker.go:runWorker:Errorf:\"unable to create client: %v\":err=err",
+  "cmd/daemon/worker.go:runWorker:Errorf:\"unable to open audit log: %v\":err=err",
+  "cmd/daemon/worker.go:runWorker:Infof:\"collector configuration is %+v\":struct=clientCfg",
+  "internal/newrelic/app.go:ConnectPayloadInternal:Errorf:\"Cannot determine host name: %s\":err=err",
+  "internal/newrelic/app.go:ConnectPayloadInternal:Errorf:\"Failed to set Agent Docker ID: %s\":err=err",
+  "internal/newrelic/app.go:filterPhpPackages:Errorf:\"failed to unmarshal php package json: %s\":err=err",
+  "internal/newrelic/collector/certs_system.go:init:Warnf:?:err=err",
+  "internal/newrelic/collector/client.go:Execute:Audit:\"command='%s' url='%s' payload={%s}\":url=cleanURL",
+  "internal/newrelic/collector/client.go:Execute:Audit:\"command='%s' url='%s', status=%d, response={%s}\":url=cleanURL",
+  "internal/newrelic/collector/client.go:Execute:Debugf:\"attempt to perform %s failed: %q, url=%s\":url=cleanURL",
+  "internal/newrelic/collector/client.go:Execute:Debugf:\"command='%s' url='%s' max_payload_size_in_bytes='%d' payload={%s}\":url=cleanURL",
+  "internal/newrelic/collector/client.go:Execute:Debugf:\"command='%s' url='%s', status=%d, response={%s}\":url=cleanURL",
+  "internal/newrelic/collector/client.go:Execute:Errorf:\"unable to create audit json payload for '%s': %s\":err=err",
+  "internal/newrelic/listener.go:Serve:Debugf:\"accept error: %v, retrying in %v\":err=err",
+  "internal/newrelic/listener.go:Serve:Errorf:\"listener: closing connection: %v\":err=err",
+  "internal/newrelic/listener.go:Serve:Errorf:\"listener: closing connection: unable to write reply of length %d: %v\":err=err",
+  "internal/newrelic/listener.go:Serve:Warnf:\"listener: protocol error: %v\":err=perr",
+  "internal/newrelic/listener.go:serve:Debugf:\"listener: error closing client connection: %v\":err=err",
+  "internal/newrelic/log_events.go:CollectorJSON:Errorf:\"failed to marshal log label: %s\":err=e",
+  "internal/newrelic/log_events.go:SetLogForwardingLabels:Errorf:\"failed to unmarshal log labels json\":err=err",
+  "internal/newrelic/metric_rules.go:NewMetricRulesFromJSON:Warnf:\"Unable to compile rule '%s': %s\":err=err",
+  "internal/newrelic/pidfile.go:CreatePidFile:Debugf:\"pidfile: %v - retrying\":err=err",
+  "internal/newrelic/processor.go:ConnectApplication:Errorf:\"Unable to connect application: %v\":err=err",
+  "internal/newrelic/processor.go:ConnectApplication:Errorf:\"unable to connect application: %v\":err=err",
+  "internal/newrelic/processor.go:doHarvest:Infof:\"removing %q with run id %q for lack of activity within %v\":struct=app",
+  "internal/newrelic/processor.go:harvestPayload:Warnf:\"final harvest for run id %q: %s failed: %v\":err=reply.Err",
+  "internal/newrelic/processor.go:integrationLog:Errorf:\"unable to create audit json payload for '%s': %s\":err=err",
+  "internal/newrelic/processor.go:processAppInfo:Errorf:\"unable to add app '%s', limit of %d applications reached\":struct=m.Info",
+  "internal/newrelic/processor.go:processConnectAttempt:Debugf:\"app '%s': ignoring the result of a superseded connect attempt\":struct=app",
+  "internal/newrelic/processor.go:processConnectAttempt:Infof:\"app '%s' connected with run id '%s'\":struct=app",
+  "internal/newrelic/processor.go:processConnectAttempt:Warnf:\"app '%s' connect attempt returned %s\":struct=app,err=rep.Err",
+  "internal/newrelic/processor.go:processConnectAttempt:Warnf:\"app '%s' connect attempt returned %s; disconnecting\":struct=app,err=collector.NewRPMResponseError(rep.RawReply.Err).Err",
+  "internal/newrelic/processor.go:processConnectAttempt:Warnf:\"app '%s' connect attempt returned %s; restarting\":struct=app,err=collector.NewRPMResponseError(rep.RawReply.Err).Err",
+  "internal/newrelic/processor.go:processConnectAttempt:Warnf:\"app '%s' connect attempt returned %s; shutting down\":struct=app,err=collector.NewRPMResponseError(rep.RawReply.Err).Err",
+  "internal/newrelic/processor.go:processHarvestError:Warnf:\"app %q with run id %q received %s\":struct=app,err=d.Reply.Err"
+]
+
+/-- **C14 (tie: no new credential-capable log sink).**  The inventory regenerated from the current source is the reviewed
+one: every sink in it is exercised by the fault-injection and process-level scans (URL sinks receive `cleanURL`, the worker's
+configuration line receives the redacted copy of the client configuration, errors pass `removeURLFromError` /
+`NewRPMResponseError`).  A new or changed sink breaks this theorem and has to be reviewed (and the list updated) even if the
+scan finds no leak on the inputs it tries. -/
+theorem C14_log_sites_tied : Gen.LogSites.sites = reviewedLogSites := rfl
